@@ -58,6 +58,10 @@ RULE = ("exhaustive: every (haystack, needle) over a 3-letter alphabet {a, b, 0x
         "or needle is repeated with default-constructed (nullptr) views; copy writes into a destination of exactly "
         "rlen cells whose surroundings are checked; char8_t/char16_t get a small exhaustive enumeration also in the "
         "quick tier; random LONG strings (up to 300 characters, common prefixes of 30+ characters, needles of 20+). "
+        "char_traits members as operations (tr_*): move/copy over every (dest, source, count) inside small buffers (all "
+        "overlaps), assign(s,n,c), compare over n characters, find, length, eq/lt/assign, the int_type members at the "
+        "type limits (all 256 values for char/char8_t); every comparison-like operation on all pairs over {a, b, NUL}; "
+        "substr/copy/compare counts for which pos + count wraps around 2^64. "
         "Each case runs in a plain build (adversarial readable guard zones) and an ASan+UBSan build (poisoned guard "
         "zones flush against both ends of every view). non-trivial = distinct case whose impl outcome is ok on a "
         "non-empty haystack")
@@ -112,7 +116,9 @@ def gen_exhaustive(ck, hmax, nmax, out, rng, light=False, full=False):
             out.append(f"ends_c {ck} {hs} {c}")
         pcs = list(range(0, len(h) + 2)) + [NPOS, NPOS - 1]
         for p in pcs:
-            for k in pcs:
+            # counts for which pos + count wraps around 2^64 (to 0, 1, size()) or just does not (npos, npos - 1)
+            wrap = sorted({(2**64 - p + e) % 2**64 for e in (-2, -1, 0, 1, len(h))} - set(pcs)) if 1 <= p <= len(h) + 1 else []
+            for k in pcs + wrap:
                 out.append(f"substr {ck} {hs} {p} {k}")
                 out.append(f"copy {ck} {hs} {k} {p}")
             out.append(f"rmpre {ck} {hs} {p}")
@@ -162,7 +168,8 @@ def gen_exhaustive(ck, hmax, nmax, out, rng, light=False, full=False):
         pcs = list(range(0, len(a) + 2)) + [NPOS]
         for b in B3:
             for p1 in pcs:
-                for k1 in pcs:
+                wrap = [(2**64 - p1) % 2**64, (2**64 - p1 + 1) % 2**64] if 1 <= p1 <= len(a) and len(b) <= 1 else []
+                for k1 in pcs + wrap:
                     out.append(f"compare_3 {ck} {L(a)} {p1} {k1} {L(b)}")
                     if len(b) <= 1 or p1 in (0, len(a)):
                         out.append(f"compare_3p {ck} {L(a)} {p1} {k1} {L(b)}")
@@ -197,7 +204,7 @@ def rpos(rng, n):
     if r < 0.75:
         return n
     if r < 0.9:
-        return rng.choice([NPOS, NPOS - 1, 2**63, 2**63 - 1, 2**32])
+        return rng.choice([NPOS, NPOS - 1, NPOS - 2, NPOS - rng.randint(0, n + 2), 2**63, 2**63 - 1, 2**32])
     return rng.randint(0, NPOS)
 
 
@@ -254,6 +261,82 @@ def gen_random(ck, count, out, rng):
         out.append(f"substr {ck} {hs} {p} {rpos(rng, len(h))}")
         out.append(f"copy {ck} {hs} {rpos(rng, len(h))} {p}")
         out.append(f"{rng.choice(['rmpre', 'rmsuf'])} {ck} {hs} {p}")
+
+
+def gen_nul(ck, maxlen, out):
+    """embedded zero characters: every comparison-like operation on all pairs of strings over {a, b, NUL} - a zero
+    followed by differing characters must not end the comparison (views are not C strings)"""
+    Z = strings(ALPHA[ck][:2] + [0], maxlen)
+    for a in Z:
+        for b in Z:
+            if 0 not in a and 0 not in b:
+                continue
+            out.append(f"compare {ck} {L(a)} {L(b)}")
+            out.append(f"rel {ck} {L(a)} {L(b)}")
+            out.append(f"starts {ck} {L(a)} {L(b)}")
+            out.append(f"ends {ck} {L(a)} {L(b)}")
+            for fam in ("find", "rfind"):
+                out.append(f"{fam}_d {ck} {L(a)} {L(b)}")
+            for k in range(0, min(len(a), len(b)) + 1):
+                out.append(f"tr_cmp {ck} {L(a)} {L(b)} {k}")
+
+
+INT_VALUES = {   # values of int_type: int / wint_t / unsigned / uint_least16_t / uint_least32_t
+    "c": [-1, 0, 97, 127, 128, 255, 256, -128, 2**31 - 1, -2**31],
+    "w": [2**32 - 1, 2**32 - 2, 0, 97, 2**31, 2**31 - 1],
+    "b": [2**32 - 1, 2**32 - 2, 0, 97, 255, 256],
+    "s": [65535, 65534, 0, 97, 0x8000],
+    "u": [2**32 - 1, 2**32 - 2, 0, 97, 2**31],
+}
+CHAR_LIMITS = {"c": (-128, 127), "w": (-2**31, 2**31 - 1), "b": (0, 255), "s": (0, 65535), "u": (0, 2**32 - 1)}
+
+
+def to_int(ck, c):
+    return c % 256 if ck == "c" else c % 2**32 if ck == "w" else c
+
+
+def gen_traits(ck, out, rng, nmax):
+    """etl::char_traits<Char> members as operations: move/copy over EVERY (dest, source, count) inside buffers of up to
+    nmax distinct characters (all overlaps), assign(s,n,c), compare over n characters incl. embedded zeros (gen_nul),
+    find, length, eq/lt/assign, to_int_type/to_char_type/eq_int_type/not_eof/eof at the limits of the types"""
+    al = ALPHA[ck]
+    for n in range(0, nmax + 1):
+        buf = L([100 + i for i in range(n)])
+        for cnt in range(0, n + 1):
+            for d in range(0, n - cnt + 1):
+                for s_ in range(0, n - cnt + 1):
+                    out.append(f"tr_move {ck} {buf} {d} {s_} {cnt}")
+                    out.append(f"tr_copy {ck} {buf} {d} {s_} {cnt}")
+                if n <= 4:
+                    out.append(f"tr_fill {ck} {buf} {d} {cnt} {al[2]}")
+    for _ in range(40):
+        n = rng.randint(8, 90)
+        buf = [rng.choice(al + EXTRA[ck]) if rng.random() < 0.2 else 100 + i % 23 for i in range(n)]
+        cnt = rng.randint(0, n)
+        s_ = rng.randint(0, n - cnt)
+        d = min(n - cnt, max(0, s_ + rng.randint(-3, 3))) if rng.random() < 0.6 else rng.randint(0, n - cnt)
+        out.append(f"tr_move {ck} {L(buf)} {d} {s_} {cnt}")
+        out.append(f"tr_copy {ck} {L(buf)} {d} {s_} {cnt}")
+        out.append(f"tr_fill {ck} {L(buf)} {d} {cnt} {rng.choice(al)}")
+    for sl in strings(al + [0], 2) + strings(al[:2] + [0], 3):
+        out.append(f"tr_len {ck} {L(sl)}")
+        for k in range(0, len(sl) + 1):
+            for c in (al[0], al[2], 0):
+                out.append(f"tr_find {ck} {L(sl)} {k} {c}")
+    lo, hi = CHAR_LIMITS[ck]
+    chars = sorted(set(al + EXTRA[ck] + [lo, hi, lo + 1, hi - 1]))
+    if ck in ("c", "b"):
+        chars = list(range(lo, hi + 1))     # every value of the 8-bit types
+    for a in (chars if len(chars) <= 16 else chars[::17] + al):
+        for b in (chars if len(chars) <= 16 else chars[::13] + al):
+            out.append(f"tr_chr {ck} {a} {b}")
+    for c in chars:
+        out.append(f"tr_toint {ck} {c}")
+        out.append(f"tr_tochar {ck} {to_int(ck, c)}")
+    iv = INT_VALUES[ck] + [to_int(ck, al[2])]
+    for i in iv:
+        for j in iv:
+            out.append(f"tr_eqint {ck} {i} {j}")
 
 
 def gen_long(ck, count, out, rng):
@@ -327,6 +410,8 @@ def gen(tier, rng):
         for ck in ("c", "w", "u", "s", "b"):
             gen_random(ck, 30000, out, rng)
             gen_long(ck, 3000, out, rng)
+            gen_nul(ck, 3, out)
+            gen_traits(ck, out, rng, 8)
     else:
         gen_exhaustive("c", 4, 3, out, rng)
         gen_exhaustive("w", 3, 2, out, rng, light=True)
@@ -341,6 +426,11 @@ def gen(tier, rng):
         gen_long("c", 250, out, rng)
         for ck in ("w", "u", "s", "b"):
             gen_long(ck, 60, out, rng)
+        gen_nul("c", 3, out)
+        gen_traits("c", out, rng, 6)
+        for ck in ("w", "u", "s", "b"):
+            gen_nul(ck, 2, out)
+            gen_traits(ck, out, rng, 5)
     return out
 
 
